@@ -9,7 +9,7 @@ E2/E3: English phrases through the real API with RELATIVE_BASE, and the implicit
 import calendar
 import datetime
 
-from .. import core
+from .. import core, neighbours
 
 LEVEL = "model_checking"
 UNITS = ["decade", "year", "month", "week", "day", "hour", "minute", "second"]
@@ -238,13 +238,16 @@ def make_cases(ctx):
 
 def to_call(c):
     out = {"s": c["s"], "kw": c["kwargs"], "settings": c["settings"], "api": "ddp", "probe": False}
+    if c.get("pre"):
+        out["pre"] = c["pre"]
     if c.get("fake_today"):
         out["fake_today"] = c["fake_today"]
     return out
 
 
 def describe(c):
-    return {"call": "DateDataParser(languages=['en'], settings=%r).get_date_data(%r)" % (c["settings"], c["s"]), "kind": c["kind"]}
+    return {"call": "DateDataParser(languages=['en'], settings=%r).get_date_data(%r)" % (c["settings"], c["s"]), "kind": c["kind"],
+            "earlier_calls_of_the_process": neighbours.describe_pre(c)}
 
 
 def run(ctx):
@@ -262,6 +265,14 @@ def run(ctx):
         ctx.violation({"tlc_counterexample": mc.counterexample()[-1:]}, "TLC refuted invariant %s of P_C04" % inv)
     cases = core.replay_cases(ctx) or make_cases(ctx)
     calls = [to_call(c) for c in cases]
+    if not ctx.replay:
+        # a share of the cases runs after a history of neighbouring calls with (mostly) equal settings: phrases that
+        # carry their own zone, other relative phrases, failing strings
+        sel = [calls[i] for i in range(len(calls)) if i % 3 and cases[i]["kind"] == "c04"]
+        neighbours.attach(ctx.rng, sel, 0.15, weights={"zone": 6, "relative": 3})
+        for c, k in zip(cases, calls):
+            if k.get("pre"):
+                c["pre"] = k["pre"]
     import json as _json
 
     def other_settings(i):      # batch members differ in RELATIVE_BASE (and the phrase) only, where possible
